@@ -21,7 +21,9 @@ BUDGET = {'quick': 6000, 'thorough': 160000}
 
 PROFILE = {
     'max_pods': 3, 'max_racks': 3,
-    'weights': {'app': 14, 'rmsrv': 2, 'readd': 2, 'prio': 2},
+    'weights': {'app': 14, 'rmsrv': 2, 'readd': 2, 'prio': 2, 'clone': 4,
+                'clone2': 4},
+    'force': ['clone2'],
     'lease': False,
 }
 
